@@ -463,6 +463,55 @@ func execPacketOp(ts []string) (string, bool) {
 		return execCls(ts[1:]), true
 	case "hdr":
 		return execHdr(unhx(ts[1]), unhx(ts[2])), true
+	case "encresp":
+		return execEncResp(ts[1:]), true
 	}
 	return "", false
+}
+
+// encresp <fc> <t|r> <tid> <unit> <bl> <data>: a byte-count response value with the given (possibly inconsistent) fields
+func execEncResp(ts []string) string {
+	fc, tcp, tid, unit, bl, d := atoi(ts[0]), ts[1] == "t", uint16(atoi(ts[2])), uint8(atoi(ts[3])), uint8(atoi(ts[4])), unhx(ts[5])
+	h := packet.MBAPHeader{TransactionID: tid}
+	var r packet.Response
+	switch fc {
+	case 1:
+		b := packet.ReadCoilsResponse{UnitID: unit, CoilsByteLength: bl, Data: d}
+		if tcp {
+			r = packet.ReadCoilsResponseTCP{MBAPHeader: h, ReadCoilsResponse: b}
+		} else {
+			r = packet.ReadCoilsResponseRTU{ReadCoilsResponse: b}
+		}
+	case 2:
+		b := packet.ReadDiscreteInputsResponse{UnitID: unit, InputsByteLength: bl, Data: d}
+		if tcp {
+			r = packet.ReadDiscreteInputsResponseTCP{MBAPHeader: h, ReadDiscreteInputsResponse: b}
+		} else {
+			r = packet.ReadDiscreteInputsResponseRTU{ReadDiscreteInputsResponse: b}
+		}
+	case 3:
+		b := packet.ReadHoldingRegistersResponse{UnitID: unit, RegisterByteLen: bl, Data: d}
+		if tcp {
+			r = packet.ReadHoldingRegistersResponseTCP{MBAPHeader: h, ReadHoldingRegistersResponse: b}
+		} else {
+			r = packet.ReadHoldingRegistersResponseRTU{ReadHoldingRegistersResponse: b}
+		}
+	case 4:
+		b := packet.ReadInputRegistersResponse{UnitID: unit, RegisterByteLen: bl, Data: d}
+		if tcp {
+			r = packet.ReadInputRegistersResponseTCP{MBAPHeader: h, ReadInputRegistersResponse: b}
+		} else {
+			r = packet.ReadInputRegistersResponseRTU{ReadInputRegistersResponse: b}
+		}
+	case 23:
+		b := packet.ReadWriteMultipleRegistersResponse{UnitID: unit, RegisterByteLen: bl, Data: d}
+		if tcp {
+			r = packet.ReadWriteMultipleRegistersResponseTCP{MBAPHeader: h, ReadWriteMultipleRegistersResponse: b}
+		} else {
+			r = packet.ReadWriteMultipleRegistersResponseRTU{ReadWriteMultipleRegistersResponse: b}
+		}
+	default:
+		return "BADOP"
+	}
+	return hx(r.Bytes())
 }
